@@ -37,6 +37,10 @@ PROPS = {
     "C08": dict(claim="Bounded symbolic checking of every Stack/Pred/Alu/Memory/ParentMemory op: the real MIR of essential-vm's step_op_* is executed symbolically from every stack of <=6 (thorough 9) and memory of <=4 (6) fully symbolic words and compared with a reference model written from asm.yml incl. the frame condition; the arithmetic kernels are additionally decided on the compiled code by Kani/CBMC.",
                 engine="mirsym+kani", technique="symbolic execution of rustc MIR with z3 (own executor) + Kani/CBMC proof harnesses",
                 outside=["stack/memory shapes above the stated bounds", "EqSet", "the i64 division identity a=q*d+r is decided by K on operands |a|<2^16,|d|<2^8 plus boundary constants; full width only for the error condition and sign rules"]),
+    "C10": dict(claim="compute::compute (real MIR, rayon iterators given sequential semantics) for a symbolic breadth -1..2 (thorough 3) over six child-body shapes with a symbolic parent stack / memory / repeat state: the result is compared with a reference that runs every child separately from the DOCUMENTED initial state (parent stack + index, empty memory, parent's repeat state, read-only parent memory, pc+1; executed by the real Vm::exec) and applies the documented join (memory = old ++ children in index order, stack minus the breadth, furthest pc, halt disjunction, gas sum); breadth < 1, nested Compute, a failing child, memory above the limit and a gas sum that does not fit are errors.",
+                outside=["thread schedules (C02)", "breadth above the bound", "body shapes other than the six", "children using state-read / crypto ops"]),
+    "C20": dict(claim="StdLock::apply from its real MIR with std::sync::Mutex replaced by an event-logging lock model: the closure is called exactly once, with the protected data itself, while the lock is held; the guard is released exactly once after the closure and before apply returns; apply returns the closure's value and consecutive applies see each other's updates; a nested apply on the same lock is the only way to block. The extracted per-call event order is then given to an SMT encoding of 3 threads x 2 calls whose interleaving is symbolic, under the Mutex axiom (lock..unlock sections of one mutex do not overlap): overlapping closure bodies and a lost update are unsatisfiable.",
+                outside=["the std::sync::Mutex implementation itself (axiomatised)", "more than 3 threads x 2 calls in the schedule encoding (the argument is symmetric in threads)", "poisoning after a panicking closure"]),
     "C11": dict(claim="The four key-range read ops (real MIR of step_op_state_reads, key_range(_ext), pop_key_range_args, write_values_to_memory) with two distinguishable uninterpreted views: the request goes to the right view (pre/post) for the right contract (the solved contract, or the 4 big-endian external address words) with exactly the popped key and count; the state may answer with an error (returned unchanged as OpError::StateRead) or with 0..2 values of 0..1 (thorough 0..2) words independent of the count; on Ok memory holds [address, length] pairs then the values back-to-back at the given address, every other word and the memory length unchanged, the stack is exactly the words below the operands; values that do not fit, negative operands or missing words are errors. key_len / count / addr are any i64.",
                 outside=["memory above 5 (7) words, keys above 2 words, more than 2 returned values"]),
     "C12": dict(claim="PredicateData / PredicateDataLen / PredicateDataSlots / ThisAddress / ThisContractAddress on 1..2 solutions with symbolic slots and 32-byte addresses, operands any i64, against asm.yml; Sha256 op: exactly ceil(len/8) words are consumed and the hasher sees exactly their first len bytes for every byte length incl. non-multiples of 8, result = the digest as 4 big-endian words; PredicateExists: one hash per solution over exactly len-prefixed slots ‖ contract ‖ predicate, result 1 iff the popped words equal one of the digests. SHA-256 is an uninterpreted function (equal inputs, equal digests).",
@@ -47,17 +51,15 @@ PROPS = {
                 outside=["equal execution of the two program representations follows from pointwise equality of op_access (argument, not a query)"]),
     "C15": dict(claim="bytes_contains_any on well-formed symbolic byte streams (Push immediates fully symbolic, so immediates containing opcode bytes are inside) for all 64 effect sets equals 'some parsed op has one of the effects'; analyze(ops) equals the union of per-op flags on <=3 ops drawn from all effectful ops, Push and an effect-free op.",
                 outside=["streams above the bound"]),
-    "C17": dict(claim="Partial: the predicate pre-image. encode_predicate has the documented layout, decode(encode(p)) = p (hence injective) and predicate_encoded_size equals the real length, for predicates of <=2 nodes / <=3 edges with every field symbolic.",
-                outside=["contract / solution-set addresses, order independence and the Address trait plumbing are not yet encoded", "SHA-256 and postcard are outside (foreign)"]),
+    "C17": dict(claim="What is hashed (SHA-256 uninterpreted): from_predicate_addrs_slice / from_solution_addrs_slice hash exactly the given addresses in ascending order (a permutation of the input - so the address does not depend on predicate / solution order) followed by the salt; Address for Predicate hashes encode_predicate(p), whose layout is the documented one, is inverted by decode_predicate (injective) and whose reported size equals its length; Address for Program hashes the program bytes; Address for Contract = from_contract = predicate addresses ‖ salt.",
+                outside=["Address for Solution (postcard serialisation is third-party and not modelled) and therefore from_set's plumbing", "injectivity of the fixed-width concatenation is by construction (32-byte chunks), not a separate query", "SHA-256 itself"]),
     "C18": dict(claim="Wire codecs: decode_mutations(encode_mutations(ms)) = ms with the documented layout and sizes (<=2 mutations, key/value <=2 words), decode_predicate(encode_predicate(p)) = p (<=2 nodes, <=3 edges, any edge_start incl. the leaf marker), decode_mutation equals the documented layout on every word string <=6, and node_edges returns exactly the documented sub-range.",
                 outside=["word/byte/hex conversions, Display/FromStr and serde round trips are not yet encoded", "derive-generated serde impls, serde_json and postcard are outside"]),
 }
 
 NOT_APPLICABLE = {
     "C02": "thread-schedule independence of the rayon sections: Kani has no concurrency model and ICEs on rayon-reaching code; encoding rayon's work-stealing scheduler for the solver is out of reach; the 'equals the sequential evaluation' half is decided under C01 (DESIGN.md section 5)",
-    "C10": "not yet encoded (compute fork/join)",
-    "C19": "not yet encoded (signature plumbing)",
-    "C20": "not yet encoded (lock)",
+    "C19": "libsecp256k1 is C behind FFI and its Rust wrapper (Message, RecoverableSignature, RecoveryId, Secp256k1) is not modelled in mirsym; axiomatising sign/recover would verify the axioms, not the code; Kani cannot compile the FFI either",
 }
 
 
